@@ -653,6 +653,74 @@ fn check_stream(out: &mut Partial, data: &[u8], cuts: &[usize], case: &Value) {
     }
 }
 
+/// What the writer underneath HashedWrite answers to one `write` call.
+#[derive(Clone, Copy, Debug, PartialEq)]
+enum EnvAns {
+    Full,
+    /// accepts only the first k bytes (at least 1, at most the buffer)
+    Short(usize),
+    /// fails with ErrorKind::Interrupted (write_all retries the same buffer)
+    Interrupted,
+}
+struct ScriptedWriter {
+    script: Vec<EnvAns>,
+    calls: usize,
+    accepted: Vec<u8>,
+}
+impl Write for ScriptedWriter {
+    fn write(&mut self, buf: &[u8]) -> std::io::Result<usize> {
+        let a = self.script.get(self.calls).copied().unwrap_or(EnvAns::Full);
+        self.calls += 1;
+        match a {
+            EnvAns::Full => {
+                self.accepted.extend_from_slice(buf);
+                Ok(buf.len())
+            },
+            EnvAns::Short(k) => {
+                // Short(1): one byte; Short(usize::MAX - 1): all but the last byte (at least one)
+                let n = if k == usize::MAX - 1 { buf.len().saturating_sub(1).max(1).min(buf.len()) } else { k.max(1).min(buf.len()) };
+                self.accepted.extend_from_slice(&buf[..n]);
+                Ok(n)
+            },
+            EnvAns::Interrupted => Err(std::io::Error::new(std::io::ErrorKind::Interrupted, "interrupted")),
+        }
+    }
+    fn flush(&mut self) -> std::io::Result<()> {
+        Ok(())
+    }
+}
+
+/// HashedWrite over a writer that answers short or interrupted: the hash must be the hash of the bytes that
+/// went through (all of `data` once every write_all returned Ok).
+fn check_stream_env(out: &mut Partial, data: &[u8], cuts: &[usize], script: &[EnvAns], case: &Value) {
+    let one = compute_data_hash(data);
+    let mut w = HashedWrite::new(ScriptedWriter { script: script.to_vec(), calls: 0, accepted: vec![] });
+    let mut a = 0usize;
+    for &c in cuts.iter().chain(std::iter::once(&data.len())) {
+        let c = c.min(data.len()).max(a);
+        if let Err(e) = w.write_all(&data[a..c]) {
+            viol(out, "C06/streaming-hasher-write-fails", || (format!("write_all through HashedWrite fails with {e} although the writer underneath only answers short or interrupted (script {script:?})"), case.clone()));
+            return;
+        }
+        a = c;
+    }
+    out.count("evaluations", 1);
+    out.count("stream_env_scripts", 1);
+    if script.iter().any(|x| *x != EnvAns::Full) {
+        out.count("vac:stream_env_scripts_with_a_short_or_interrupted_write", 1);
+    }
+    let got = w.hash();
+    let inner = w.into_inner();
+    if inner.accepted != data {
+        viol(out, "C06/streaming-hasher-loses-bytes", || (format!("HashedWrite over {} bytes cut at {cuts:?} under writer answers {script:?} did not pass the bytes through", data.len()), case.clone()));
+    }
+    if got != one {
+        viol(out, "C06/streaming-hasher-vs-one-shot", || {
+            (format!("HashedWrite over {} bytes written in parts cut at {cuts:?} to a writer answering {script:?} gives {} but the one-shot hash of the bytes written is {}", data.len(), got.hex(), one.hex()), case.clone())
+        });
+    }
+}
+
 fn stream_data(len: usize, kind: u64) -> Vec<u8> {
     match kind {
         0 => Lcg::new(0x5EED + len as u64).bytes(len),
@@ -906,6 +974,62 @@ fn jobs(tier: Tier) -> Vec<(u64, Job)> {
             }),
         ));
     }
+    // E2. environment answers of the writer underneath: every script over the first 4 (thorough: 5) inner write
+    //     calls with at most 2 (thorough: 3) departures from "accepts everything" — a short write of 1 byte, of
+    //     all but one byte, or an Interrupted error — for every cut pair of a 9-byte string and 3 longer ones
+    {
+        let (calls, maxdev) = (tier.pick(4usize, 5usize), tier.pick(2usize, 3usize));
+        js.push((
+            60_000,
+            Box::new(move |_p| {
+                let mut out = Partial::default();
+                let alphabet = [EnvAns::Short(1), EnvAns::Short(usize::MAX - 1), EnvAns::Interrupted];
+                // all scripts with <= maxdev deviations
+                let mut scripts: Vec<Vec<EnvAns>> = vec![vec![]];
+                for _ in 0..calls {
+                    let mut next = vec![];
+                    for sc in &scripts {
+                        let dev = sc.iter().filter(|x| **x != EnvAns::Full).count();
+                        let mut t = sc.clone();
+                        t.push(EnvAns::Full);
+                        next.push(t);
+                        if dev < maxdev {
+                            for a in alphabet {
+                                let mut t = sc.clone();
+                                t.push(a);
+                                next.push(t);
+                            }
+                        }
+                    }
+                    scripts = next;
+                }
+                for (len, kind) in [(9usize, 0u64), (64, 0), (4097, 3), (65537, 3)] {
+                    let d = stream_data(len, kind);
+                    let cutsets: Vec<Vec<usize>> = if len == 9 {
+                        let mut v = vec![vec![]];
+                        for a in 0..=len {
+                            v.push(vec![a]);
+                            for b in a..=len {
+                                v.push(vec![a, b]);
+                            }
+                        }
+                        v
+                    } else {
+                        vec![vec![], vec![1], vec![len / 2], vec![len - 1], vec![1, len - 1], vec![len / 2, len / 2]]
+                    };
+                    for cuts in &cutsets {
+                        for sc in &scripts {
+                            // "all but one byte" depends on the buffer: resolved per call by the writer (k is clamped)
+                            let case = json!({"lab": "hash", "check": "stream-env", "len": len, "kind": kind, "cuts": cuts,
+                                "script": sc.iter().map(|a| match a { EnvAns::Full => "full".to_string(), EnvAns::Short(1) => "short1".to_string(), EnvAns::Short(_) => "short-all-but-one".to_string(), EnvAns::Interrupted => "interrupted".to_string() }).collect::<Vec<_>>()});
+                            check_stream_env(&mut out, &d, cuts, sc, &case);
+                        }
+                    }
+                }
+                out
+            }),
+        ));
+    }
     // write sizes around the usual buffering thresholds (4 KiB .. 64 KiB): every sequence of <= 3 writes whose
     // sizes come from this menu, so that a small write followed by a large one (and every other order) is
     // hashed through any internal staging / fast path a streaming hasher might have
@@ -1011,6 +1135,25 @@ fn replay(out: &mut Partial, p: &Pools, r: &Value) {
             let cuts: Vec<usize> = r["cuts"].as_array().map(|a| a.iter().map(|x| x.as_u64().unwrap_or(0) as usize).collect()).unwrap_or_default();
             check_stream(out, &d, &cuts, r);
         },
+        Some("stream-env") => {
+            let len = r["len"].as_u64().unwrap_or(0) as usize;
+            let d = stream_data(len, r["kind"].as_u64().unwrap_or(0));
+            let cuts: Vec<usize> = r["cuts"].as_array().map(|a| a.iter().map(|x| x.as_u64().unwrap_or(0) as usize).collect()).unwrap_or_default();
+            let script: Vec<EnvAns> = r["script"]
+                .as_array()
+                .map(|a| {
+                    a.iter()
+                        .map(|x| match x.as_str().unwrap_or("full") {
+                            "short1" => EnvAns::Short(1),
+                            "short-all-but-one" => EnvAns::Short(usize::MAX - 1),
+                            "interrupted" => EnvAns::Interrupted,
+                            _ => EnvAns::Full,
+                        })
+                        .collect()
+                })
+                .unwrap_or_default();
+            check_stream_env(out, &d, &cuts, &script, r);
+        },
         Some("chunk") | Some("interior") => {
             // re-run the pool construction / fixed interior inputs (both are part of every run)
             let _ = build_pools(out);
@@ -1086,7 +1229,7 @@ fn main() {
     run.all = all;
     run.finish(
         evaluations,
-        "real chunk bytes are searched (fixed LCG candidates) into two pools of 8192 leaves by class 'last 64-bit word of the chunk hash is 0 mod 4' / 'not'. Lists: EVERY class pattern of length 0..14 (2^15-1 lists; thorough: 0..16, 2^17-1 lists; real bytes: xorb built with CasObject::serialize under two compression settings, uploader hash, seekable + streaming validators incl. footer-less stream and two wrong-hash variants, every sub-range hash up to length 8); all 364 lists of length <=5 over 3 (hash,length) pairs x 8 class assignments x 3 assignments of the lengths {0,1,2^32-1}; every list of <= 4 (thorough: 5) entries over 9 leaves that share their first 64-bit word with each other, with the all-zero hash or with a real chunk hash (synthetic 256-bit values; family shared-first-word); structured lists (distinct mix, all zero-mod-4, none, one hash repeated, two alternating, period 3) for n in 1..64,100,1000,8192 (real xorbs); each compared with the reference for xorb hash, file hash under salts {0,1,pattern}, range hash. Every single edit (change to same/other class, drop, swap adjacent, insert of either class, insert a repeat; at every position, for n>64 at 25 positions) of patterns up to length 10 (quick) / 14 (thorough), of all three-pair lists and of the structured lists must change xorb, file and range hash, and every edited list is itself compared with the reference. 5^4 structured 256-bit values: layout, hex, base64 against hand-written encoders, round trips, hmac/with_salt under 3 keys; 600+ malformed hex / base64 texts must be rejected without panic. HashedWrite against the one-shot hash for 2 strings of each length 0..12 under ALL partitions (2^11 for 12 bytes; a quarter also with empty writes in every slot) and for lengths 63,64,65,1023,1024,1025,4097 under every 2-partition, and every sequence of <= 3 writes with sizes from {1,7,4095,4096,4097,8191,8192,16383,16384,16385,65535,65536,65537} (buffering thresholds). An evaluation is one comparison of a function of the code under test with the reference (or of two aggregates for an edit); distinct non-trivial cases are the distinct base lists with >= 2 entries (edits not counted), the 625 values and the byte strings",
+        "real chunk bytes are searched (fixed LCG candidates) into two pools of 8192 leaves by class 'last 64-bit word of the chunk hash is 0 mod 4' / 'not'. Lists: EVERY class pattern of length 0..14 (2^15-1 lists; thorough: 0..16, 2^17-1 lists; real bytes: xorb built with CasObject::serialize under two compression settings, uploader hash, seekable + streaming validators incl. footer-less stream and two wrong-hash variants, every sub-range hash up to length 8); all 364 lists of length <=5 over 3 (hash,length) pairs x 8 class assignments x 3 assignments of the lengths {0,1,2^32-1}; every list of <= 4 (thorough: 5) entries over 9 leaves that share their first 64-bit word with each other, with the all-zero hash or with a real chunk hash (synthetic 256-bit values; family shared-first-word); structured lists (distinct mix, all zero-mod-4, none, one hash repeated, two alternating, period 3) for n in 1..64,100,1000,8192 (real xorbs); each compared with the reference for xorb hash, file hash under salts {0,1,pattern}, range hash. Every single edit (change to same/other class, drop, swap adjacent, insert of either class, insert a repeat; at every position, for n>64 at 25 positions) of patterns up to length 10 (quick) / 14 (thorough), of all three-pair lists and of the structured lists must change xorb, file and range hash, and every edited list is itself compared with the reference. 5^4 structured 256-bit values: layout, hex, base64 against hand-written encoders, round trips, hmac/with_salt under 3 keys; 600+ malformed hex / base64 texts must be rejected without panic. HashedWrite against the one-shot hash for 2 strings of each length 0..12 under ALL partitions (2^11 for 12 bytes; a quarter also with empty writes in every slot) and for lengths 63,64,65,1023,1024,1025,4097 under every 2-partition, and every sequence of <= 3 writes with sizes from {1,7,4095,4096,4097,8191,8192,16383,16384,16385,65535,65536,65537} (buffering thresholds); and over a writer that answers short (1 byte / all but one byte) or Interrupted: every script over its first 4 (thorough 5) calls with <= 2 (thorough 3) such answers, for every cut pair of a 9-byte string and 6 cut sets of 64, 4097 and 65537 bytes. An evaluation is one comparison of a function of the code under test with the reference (or of two aggregates for an edit); distinct non-trivial cases are the distinct base lists with >= 2 entries (edits not counted), the 625 values and the byte strings",
         true,
     );
 }
